@@ -43,6 +43,15 @@ PROP = dict(
              "(start-binst-*, start-after-*, start-shortcut); and n/5 starts with ZERO-SIZE runners (marker e: twelve field-less Go types, three "
              "per class, which report through a package-level record of the current start) next to ordinary ones: at least two zero-size "
              "runners of different Go types among three or more runners, a quarter of these starts with the probe in a circular reference; a third of the `SB` starts has zero-size runners too; "
+             "ninth round, after these: n/10 starts (S 1/2, SC 1/4, SB 1/4) in which one to three processors and a third of the runners reach "
+             "the singleton registry through TWO routes (marker t: the same pointer twice in the application's SetComponents call, u: listed "
+             "again in a second SetComponents option, tu: both) — the existing per-component log oracles demand every participant once per "
+             "component, in contract order; and n/10 starts (S 5/8, SC 1/4, SB 1/8) with runners whose Order() answers a field bound from "
+             "configuration (marker c: `value:\"${ordrc.<slot>}\"`, eight Go types, four per ordered class, Orders within +-10^6; named ordR<id>, "
+             "so they are created after the App component), at least two of them in one class with different Orders, the definition registry "
+             "made to enumerate them last and in DESCENDING Order (GetMetas permuter through factory.NewWithRegistries); the runner oracle "
+             "judges the start sequence by the Order() each runner answered when its Run was called; a quarter of these starts also has "
+             "participants registered twice; "
              "distinct = distinct scenario lines",
         trusted_base=COMMON_TB + ["Go sort.Slice meets SortSpec (permutation, ordered by the comparator) — hypothesis of the theorems, exercised by the oracles",
                                   "Go interface type assertions as modelled by Part.ofIfaces (validated by the correspondence, incl. Priority-without-Order)"],
@@ -54,5 +63,7 @@ PROP = dict(
                      "a LazyInit post-processor is used as registered (never created by the factory); the eager ones are fetched from the factory and, having no injection points, are the registered instances too — unless a decorating processor (marker w) is ahead of them in the sorted raw slice: then the factory's answer is a decorator around the registered instance (modelled by Driver.Order.resolveIn; C12_resolved_processors_invoked_in_order / C12_decorated_processors_keep_position hold for every such answer)",
                      "zero-size runners read their Order and report their Run through a package-level record of the current start (one start at a time per harness process)",
                      "`SB` starts: the two watched components have no injection points and are created by Refresh in name order (ordprobe, ordtwin); a supplied instance is a fresh object of another Go type",
+                     "runners with a configuration-driven Order (marker c): the configured Orders stay within +-10^6, where every conversion between the YAML document and the int field is exact (outside it the value binding, not the ordering, decides what Order() answers: 9223372036854775807 arrives as -9223372036854775808)",
+                     "participants registered twice (markers t / u) are registered as the SAME pointer; a different object under a taken name panics in RegisterSingleton and is not a scenario of this property",
                      "user post-processors in the starts have no injection points (the known limitation about Priority-ordered processors created early does not interfere)"],
     )
